@@ -19,6 +19,9 @@ Real `confidence_region_check_dominates` → `RectangularConfidenceRegion.check_
   (the intersection's own coordinate comes out one ulp above the target; present in the original
   code, repaired by /repo commit 2e45ea6, regression cases in corpus/C11), any other miss is
   `complete2x2`;
+* (R) histories: the same region objects are compared, mutated through every public mutator, compared again;
+  answers must hold for the CURRENT bounds (keys `stale-region:check_dominates:<mutator>`,
+  `stale-region:pess-set:<mutator>`);
 * (R) pessimistic set: designs with no candidate dominator (relaxed reference False for every other
   active design) must be kept (all cones); for 2×2 cones designs with a margin-dominator must be dropped.
 """
@@ -39,7 +42,9 @@ RULE = ("kinds: pair-exact (dyadic boxes, integer-row cones incl. N>m, N<m, 3-D;
         "box edge/diagonal keeps one W-coordinate constant while others move oppositely, R1 tied exactly to that "
         "constant just above the bounding-box corner of the segment), pess (2–7 designs, S/P split, three "
         "algorithm classes; mutual-domination shapes: identical regions, shared lower corners, default ±1e12 "
-        "boxes, chains + cycles), seg (single intersections); non-trivial = per-vertex answers of R₁ are "
+        "boxes, chains + cycles), seg (single intersections), hist (query – mutate – query histories on the same "
+        "region objects of one design space: update with intersect_iteratively True/False, intersect overlapping/"
+        "disjoint, assignment to lower/upper; every answer judged for the current bounds); non-trivial = per-vertex answers of R₁ are "
         "mixed or at least one goes through the edge path (pair), kept set is a proper non-empty subset "
         "(pess), an intersection point exists (seg); distinct by exact inputs")
 ASSUMPTIONS = [
@@ -485,6 +490,66 @@ def gen_pess_mutual(rng):
             "algo": rng.choice(["VOGP", "EpsilonPAL", "VOGP_AD"]), "shape": "mutual-" + layout}
 
 
+def gen_hist(rng):
+    """HISTORY stream: the same region objects (held by one real design space) are compared, mutated through a
+    public mutator, compared again.  Boxes are copies of a base box shifted along an integer direction inside
+    the cone by varying amounts, so verdicts flip with clear margins."""
+    cname = rng.choice(["orthant2", "acute2", "obtuse2", "skew2", "rot2", "wide2", "narrow2", "threefacet2",
+                        "orthant2", "acute2", "orthant3", "acute3", "obtuse3", "tie3a"])
+    W = exact_cone(cname)
+    m = len(W[0])
+    c = [0.0] * m
+    for _ in range(50):
+        c = [float(rng.randint(-2, 3)) for _ in range(m)]
+        if any(c) and all(sum(w[k] * c[k] for k in range(m)) > 0 for w in W):
+            break
+    else:
+        c = [1.0] * m
+    p = rng.choice([0, 1, 2])
+    base = [_dy(rng, -4, 4, p) for _ in range(m)]
+
+    def box(t, wmax=3):
+        l = [b + t * cc + _dy(rng, -1, 1, p) / 4 for b, cc in zip(base, c)]
+        return l, [a + rng.choice([0, 1, 2, wmax]) / 2 ** p for a in l]
+
+    n = rng.choice([2, 2, 3, 4])
+    L, U = [], []
+    for _ in range(n):
+        l, u = box(rng.randint(-4, 4))
+        L.append(l)
+        U.append(u)
+    steps = []
+    for _ in range(rng.randint(2, 5)):
+        op = rng.choice(["update", "update", "update", "intersect", "intersect", "intersect_wide", "assign",
+                         "assign_lower", "assign_upper"])
+        st = {"op": op, "target": rng.randrange(n)}
+        if op == "update":
+            t = rng.randint(-5, 5)
+            st["mean"] = [b + t * cc for b, cc in zip(base, c)]
+            sd = [rng.choice([0, 1, 2, 3, 8]) / 2 ** p for _ in range(m)]
+            st["var"] = [x * x for x in sd]
+            st["scale"] = rng.choice([1.0, 0.5, 2.0, 1.5])
+        elif op in ("intersect", "assign"):
+            st["lower"], st["upper"] = box(rng.randint(-5, 5))
+            if op == "intersect" and rng.random() < 0.6:
+                # clip the target's initial box: keeps a proper overlapping part unless it was moved meanwhile
+                i0 = st["target"]
+                st["lower"] = [a + rng.choice([-1, 0, 1, 2]) / 2 ** (p + 1) for a in L[i0]]
+                st["upper"] = [max(a, b) + rng.choice([0, 1, 4]) / 2 ** (p + 1) for a, b in zip(st["lower"], U[i0])]
+        elif op == "intersect_wide":  # a large box around everything moved a little: overlapping, clips one side
+            t = rng.randint(-3, 3)
+            st["lower"] = [b + t * cc - (0 if rng.random() < 0.5 else 40) for b, cc in zip(base, c)]
+            st["upper"] = [a + 40 for a in st["lower"]]
+        else:
+            st["delta"] = [rng.choice([0, 1, 2, 6]) / 2 ** p for _ in range(m)]
+        steps.append(st)
+    act = sorted(set(rng.sample(range(n), rng.randint(2, n))))
+    S = [i for i in act if rng.random() < 0.6]
+    P = [i for i in act if i not in S]
+    return {"kind": "hist", "exact": True, "cone": cname, "L": L, "U": U, "iter": [rng.random() < 0.6 for _ in range(n)],
+            "steps": steps, "S": S, "P": P, "algo": rng.choice(["VOGP", "EpsilonPAL", "VOGP_AD"]), "shape": "hist"}
+
+
 def gen_seg(rng):
     D = rng.choice([2, 3, 4])
     if rng.random() < 0.5:
@@ -546,6 +611,8 @@ def gen(ctx):
             yield gen_pess_mutual(rng)
         else:
             yield gen_seg(rng)
+    for _ in range(ctx.n(60, 4000)):
+        yield gen_hist(rng)
 
 
 # ------------------------------------------------------------------------------------- evaluation
@@ -792,6 +859,129 @@ def run_pess(ctx, case):
     ctx.case_done(case, 0 < len(real) < len(act), canon=["pess", ws, Ls, Us, act])
 
 
+def _apply_step(region, st):
+    """apply one public mutator to a live region object; returns the mutator's label"""
+    from vopy.utils.utils import hyperrectangle_check_intersection
+
+    op = st["op"]
+    if op == "update":
+        cov = np.diag(np.array(st["var"], dtype=float))
+        region.update(np.array(st["mean"], dtype=float), cov, np.array(float(st["scale"])))
+        return "update_intersect_iteratively" if region.intersect_iteratively else "update_replace"
+    if op in ("intersect", "intersect_wide"):
+        lo, up = np.array(st["lower"], dtype=float), np.array(st["upper"], dtype=float)
+        overlap = hyperrectangle_check_intersection(np.array(region.lower, dtype=float),
+                                                    np.array(region.upper, dtype=float), lo, up)
+        region.intersect(lo, up)
+        return "intersect_overlapping" if overlap else "intersect_disjoint"
+    if op == "assign":
+        region.lower = np.array(st["lower"], dtype=float)
+        region.upper = np.array(st["upper"], dtype=float)
+        return "assign_lower_upper"
+    if op == "assign_lower":
+        region.lower = np.array(region.lower, dtype=float) - np.array(st["delta"], dtype=float)
+        return "assign_lower"
+    if op == "assign_upper":
+        region.upper = np.array(region.upper, dtype=float) + np.array(st["delta"], dtype=float)
+        return "assign_upper"
+    raise ValueError(op)
+
+
+def run_hist(ctx, case):
+    """compare, mutate through a public mutator, compare again on the SAME region objects: every answer of
+    check_dominates / compute_pessimistic_set must be right for the CURRENT lower/upper read back from the
+    objects (certified reference; and equal to the answer on freshly built regions with those bounds)."""
+    from vopy.confidence_region import RectangularConfidenceRegion, confidence_region_check_dominates
+    from vopy.design_space import FixedPointsDesignSpace
+
+    order, _ = _order(case)
+    W = np.array(order.ordering_cone.W, dtype=float)
+    ws = core.qmat(W)
+    n, m = len(case["L"]), len(case["L"][0])
+    ds = FixedPointsDesignSpace(np.zeros((n, 1)), m, confidence_type="hyperrectangle")
+    for i in range(n):
+        ds.confidence_regions[i] = RectangularConfidenceRegion(
+            m, np.array(case["L"][i], dtype=float), np.array(case["U"][i], dtype=float),
+            intersect_iteratively=bool(case["iter"][i]))
+    regs = ds.confidence_regions
+    cls = _algo(case["algo"])
+    obj = object.__new__(cls)
+    obj.S, obj.P, obj.order, obj.design_space = set(case["S"]), set(case["P"]), order, ds
+    act = sorted(set(case["S"]) | set(case["P"]))
+    two = _is2x2(W)
+    ctx.count("stream_hist")
+    label = None
+    verdicts = set()
+    for k in range(len(case["steps"]) + 1):
+        if k > 0:
+            st = case["steps"][k - 1]
+            try:
+                label = _apply_step(regs[st["target"]], st)
+            except Exception as e:
+                ctx.violation("hist-crash:" + core.exc_key(e), f"mutator {st['op']} raised {type(e).__name__}: {e}", case)
+                return
+            ctx.count("hist_op_" + label)
+        Lc = [[float(x) for x in r.lower] for r in regs]
+        Uc = [[float(x) for x in r.upper] for r in regs]
+        data = [x for r in Lc + Uc for x in r]
+        sm = [-x for x in _margins(W, data, TAU_S)]
+        sp = _margins(W, data, TAU_C)
+        lo_t, hi_t = {}, {}
+        for i in range(n):
+            for j in range(n):
+                if i == j:
+                    continue
+                try:
+                    real = bool(confidence_region_check_dominates(order, regs[j], regs[i]))
+                    fresh = bool(confidence_region_check_dominates(order, _rect(Lc[j], Uc[j]), _rect(Lc[i], Uc[i])))
+                except Exception as e:
+                    ctx.violation("hist-crash:" + core.exc_key(e), f"check_dominates raised {type(e).__name__}: {e}", case)
+                    return
+                lo = _ref(ctx, ws, Lc[j], Uc[j], Lc[i], Uc[i], sm)
+                hi = _ref(ctx, ws, Lc[j], Uc[j], Lc[i], Uc[i], sp) if lo is True else (False if lo is False else None)
+                lo_t[(j, i)], hi_t[(j, i)] = lo, hi
+                verdicts.add(real)
+                where = "construction" if k == 0 else "mutation through " + label
+                det = {"query": k, "pair": [j, i], "impl": real, "fresh_objects": fresh, "lower": Lc, "upper": Uc}
+                if real and lo is False:
+                    ctx.violation("unsound" if k == 0 else "stale-region:check_dominates:" + label,
+                                  f"after {where} check_dominates(R{j}, R{i}) answers True although for the regions' "
+                                  "CURRENT bounds some vertex of the first dominates no point of the second "
+                                  "(certified)", case, detail=det)
+                elif (not real) and hi is True and two:
+                    ctx.violation("complete2x2" if k == 0 else "stale-region:check_dominates:" + label,
+                                  f"after {where} check_dominates(R{j}, R{i}) answers False although for the regions' "
+                                  "CURRENT bounds every vertex of the first dominates a point of the second with "
+                                  "margin (2x2 cone)", case, detail=det)
+                elif real != fresh:
+                    ctx.violation("stale-region-fresh:check_dominates:" + str(label),
+                                  f"after {where} the answer on the live objects differs from the answer on freshly "
+                                  "built regions with the same bounds", case, kind="F", detail=det)
+                else:
+                    ctx.count("hist_query_ok")
+        try:
+            rset = sorted(int(i) for i in cls.compute_pessimistic_set(obj))
+        except Exception as e:
+            ctx.violation("hist-crash:" + core.exc_key(e), f"compute_pessimistic_set raised {type(e).__name__}: {e}", case)
+            return
+        must_keep = [i for i in act if all(lo_t[(j, i)] is False for j in act if j != i)]
+        must_drop = [i for i in act if two and any(hi_t[(j, i)] is True for j in act if j != i)]
+        bad_keep = [i for i in must_keep if i not in rset]
+        bad_drop = [i for i in must_drop if i in rset]
+        if bad_keep or bad_drop:
+            where = "construction" if k == 0 else "mutation through " + label
+            key = ("pess-set-unsound" if bad_keep else "pess-set-incomplete") if k == 0 else "stale-region:pess-set:" + label
+            ctx.violation(key, f"after {where} compute_pessimistic_set is wrong for the regions' CURRENT bounds: "
+                          + (f"drops {bad_keep} which no other active design can dominate" if bad_keep else
+                             f"keeps {bad_drop} which another active design dominates with margin"), case,
+                          detail={"query": k, "impl": rset, "must_keep": must_keep, "must_drop": must_drop,
+                                  "lower": Lc, "upper": Uc})
+        else:
+            ctx.count("hist_pess_ok")
+    ctx.case_done(case, len(verdicts) > 1, canon=["hist", ws, case["L"], case["U"], case["iter"], case["steps"],
+                                                   case["S"], case["P"], case["algo"]])
+
+
 def run_seg(ctx, case):
     from vopy.utils.utils import line_seg_pt_intersect_at_dim
 
@@ -823,6 +1013,8 @@ def run_case(ctx, case):
         run_pess(ctx, case)
     elif kind == "seg":
         run_seg(ctx, case)
+    elif kind == "hist":
+        run_hist(ctx, case)
     elif kind == "r64":
         # self-test of the rounding function against Python's correctly rounded int/int division
         from fractions import Fraction
